@@ -11,6 +11,7 @@ query point).  esutil is never used to compute an expected value.
 import functools
 import itertools
 import math
+import os
 import random
 from fractions import Fraction as Fr
 
@@ -617,6 +618,8 @@ def main(ctx):
             return np.array(data, dtype="i8"), (None if w is None else np.array(w, dtype="f8"))
         return np.array(data, dtype="f8"), (None if w is None else np.array(w, dtype="f8"))
 
+    _quiet_fd2 = []
+
     def one_clip(case, rec):
         cont, data, w, nsig, niter, get_err, get_ind = case
         arr, wts = clip_args(cont, data, w)
@@ -629,6 +632,16 @@ def main(ctx):
         nexp = 2 + int(get_err) + int(get_ind)
         if len(r) != nexp:
             return rec.fail(case, "sigma_clip returned %d values, expected %d" % (len(r), nexp))
+        # the same call with the diagnostics left on (the default): whatever is reported must not change the result,
+        # nor - in the warnings-as-errors pass - make the call raise
+        if not _quiet_fd2:
+            _quiet_fd2.append(os.dup2(os.open(os.devnull, os.O_WRONLY), 2))
+        try:
+            r2 = stat.sigma_clip(arr, weights=wts, nsig=nsig, niter=niter, get_err=get_err, get_indices=get_ind)
+        except Exception as e:
+            return rec.fail(case, "sigma_clip with the diagnostics on (silent left at its default) raised %s: %s" % (type(e).__name__, e))
+        if len(r2) != len(r) or any(not np.array_equal(np.asarray(a), np.asarray(b), equal_nan=True) for a, b in zip(r, r2)):
+            return rec.fail(case, "sigma_clip with silent left at its default returns %r, with silent=True %r" % (r2, r))
         m, s = r[0], r[1]
         e = r[2] if get_err else None
         ind = r[-1] if get_ind else extra.get("indices")
@@ -706,7 +719,7 @@ def main(ctx):
                     for niter in range(0, 11):
                         yield (cont, data, w, nsig, niter, flags[0], flags[1])
 
-    ctx.lattice("sigma-clip", unitsc, one_clip, expand=expandc,
+    ctx.lattice("sigma-clip", unitsc, one_clip, wstrict=True, expand=expandc,
                 bounds=dict(bases=[list(BASE_GENERIC), list(BASE_SEED), list(EX1), list(EX2), list(EX3)],
                             outliers=list(OUT), max_outliers=KOUT, orderings=["as built", "reversed"],
                             weights=["None", "ones", "ramp 0.5..2", "alternating 1,2"], nsig=list(NSIG),
@@ -958,7 +971,7 @@ def main(ctx):
         else:
             yield ("2d", ((0.0, 2.5, -1.0, 50.0), (1.0, 1.0, 2.0, 3.0)), None, (("nsig", 1.5),))
 
-    ctx.lattice("get-stats", unitsg, one_gs, expand=expandg,
+    ctx.lattice("get-stats", unitsg, one_gs, wstrict=True, expand=expandg,
                 bounds=dict(max_len_1d=LG, x_alphabet=list(VG), w_alphabet=list(W),
                             shapes_2d=[list(t) for t in SH2],
                             wmom_keywords=[dict(k) for k in KWW], clip_keywords=[dict(k) for k in CLIPKW],
@@ -1157,7 +1170,7 @@ def main(ctx):
                    mutations=[("x",), ("w",)], mutate=seq_mut, nodedup_depth=3)
 
     # ------------------------------------------------ long query arrays through interplin (mc/longarr.py)
-    from mc.longarr import tiled_elementwise, PERIOD
+    from mc.longarr import tiled_elementwise, PERIOD, marks
     TX = np.array([0.0, 1.0, 2.5, 3.0, 7.0, 7.5])
     TV = np.array([1.0, -2.0, 0.5, 0.5, 10.0, -4.0])
 
@@ -1173,4 +1186,4 @@ def main(ctx):
               # a long TABLE: node j of the tiled table is not periodic, so only the query at the nodes themselves is used:
               # interpolating a table at its own nodes returns the node values
               }
-    tiled_elementwise(ctx, "long-arrays", ispecs, ctx.pick((100000, 1000000), (65536, 100000, 1000000, 1048576, 2000000)))
+    tiled_elementwise(ctx, "long-arrays", ispecs, marks(ctx))
